@@ -16,3 +16,14 @@ package maps
 //@     invariant [sound] forall i int :: 0 <= i && i < len(keys) ==> keys[i] in visited
 //@     invariant [complete] forall k K :: k in visited ==> (exists i int :: 0 <= i && i < len(keys) && keys[i] == k)
 //@     invariant [distinct] forall i int, j int :: 0 <= i && i < j && j < len(keys) ==> keys[i] != keys[j]
+
+// Iterate: the callback is called exactly once per key, in the order of Keys(input), i.e. in strictly
+// increasing key order (this is the higher-order contract that call sites of maps.Iterate rely on; the
+// value passed is input[key] by the one-line body).
+//@ func Iterate
+//@   property C08 C09
+//@   ensures [one_call_per_key_in_key_order] tlen() == old(tlen()) + len(Keys(input))
+//@        && (forall j int :: 0 <= j && j < len(Keys(input)) ==> evIs(old(tlen()) + j, "dyncall") && evS1(old(tlen()) + j) == Keys(input)[j])
+//@   loop 1
+//@     invariant [count] tlen() == old(tlen()) + $i
+//@     invariant [order] forall j int :: 0 <= j && j < $i ==> evIs(old(tlen()) + j, "dyncall") && evS1(old(tlen()) + j) == Keys(input)[j]
